@@ -275,7 +275,9 @@ func (ir *ifdReader) readMakerNotes(t Tag) {
 			ir.logError(err).Send()
 		}
 	case ifds.Nikon:
-		if t.Size() > 18 { // read Nikon Makernotes header 18 bytes
+		// the tag has been retyped to an IFD pointer, so Size() no longer is the length of the
+		// note; its unit count still is (MakerNote is UNDEFINED, one byte per unit)
+		if t.UnitCount > 18 { // read Nikon Makernotes header 18 bytes
 			buf, err := ir.fastRead(18)
 			if err != nil {
 				t.logTag(ir.logError(err)).Send()
